@@ -64,6 +64,7 @@ type loopInfo struct {
 }
 
 type fnTrans struct {
+	iterId   map[ssa.Value]string // string iterators: Range instruction -> object id of its ghost counter
 	warns    []string
 	hintSeen map[string]bool
 	v      *verifier
@@ -1167,6 +1168,38 @@ func (tr *fnTrans) loopEnv(li *loopInfo, phiVal func(*ssa.Phi) Term, heap map[st
 				name = "#k"
 			}
 			e.vars[name] = phiVal(phi)
+		}
+	}
+	if _, has := e.vars["#outer"]; !has {
+		// nearest enclosing range loop over a string: inside its body the iterator has already advanced past the current
+		// character, so the index of the current character is counter-1 and "#outer" (current index - 1) is counter-2
+		bestDepth := -1
+		for _, b := range tr.fn.Blocks {
+			if b == h || !b.Dominates(h) {
+				continue
+			}
+			for _, in := range b.Instrs {
+				if nx, ok := in.(*ssa.Next); ok && nx.IsString {
+					if id, ok := tr.iterId[nx.Iter]; ok {
+						if hn, ok := heap["H_Iter"]; ok && domDepth(b) > bestDepth {
+							bestDepth = domDepth(b)
+							e.vars["#outer"] = T(fmt.Sprintf("(- %s 2)", sel(hn, id)), SInt)
+						}
+					}
+				}
+			}
+		}
+	}
+	if _, has := e.vars["#k"]; !has {
+		// a range loop over a string: completed iterations - 1, read from the iterator's ghost counter
+		for _, in := range h.Instrs {
+			if nx, ok := in.(*ssa.Next); ok && nx.IsString {
+				if id, ok := tr.iterId[nx.Iter]; ok {
+					if hn, ok := heap["H_Iter"]; ok {
+						e.vars["#k"] = T(fmt.Sprintf("(- %s 1)", sel(hn, id)), SInt)
+					}
+				}
+			}
 		}
 	}
 	return e
